@@ -264,6 +264,78 @@ static void run_cpc(const Cfg& c, Rng& r) {
   }
 }
 
+// ---------------------------------------------------------------- assignment programs (hll_sketch, cpc_sketch)
+// target and source of different lg_k / type / fill (empty, LIST/SET or sparse, HLL or windowed); copy-, move- (from a copy) or
+// self-assignment; the target must read out exactly like the source, the source stays unchanged, and further distinct updates
+// of the target are counted on top of the source's true count.
+static void run_assign_program(Rng& r, bool T) {
+  const bool cpc = r.coin();
+  const uint64_t cap = T ? 200000 : 40000;
+  struct Side { uint8_t lg_k; int type; uint64_t n; };
+  auto gen = [&] {
+    Side s; s.lg_k = static_cast<uint8_t>(r.range(4, 13)); s.type = static_cast<int>(r.below(3));
+    const uint64_t k = 1ULL << s.lg_k;
+    switch (r.below(4)) {
+      case 0: s.n = 0; break;
+      case 1: s.n = 1 + r.below(std::max<uint64_t>(1, k / 16)); break;        // coupon modes / sparse
+      case 2: s.n = k / 4 + r.below(2 * k); break;
+      default: s.n = std::min<uint64_t>(cap, 4 * k + r.below(40 * k)); break;
+    }
+    return s;
+  };
+  Side ta = gen(), so = gen();
+  const int kind = static_cast<int>(r.below(8));      // 0-3 copy, 4-6 move, 7 self
+  const uint64_t base = r.next();
+  describe(std::string(cpc ? "cpc" : "hll") + " assignment kind=" + (kind < 4 ? "copy" : (kind < 7 ? "move" : "self")) + " target[lg_k=" + std::to_string(ta.lg_k) + " type=" + std::to_string(ta.type) + " n=" + std::to_string(ta.n) +
+           "] source[lg_k=" + std::to_string(so.lg_k) + " type=" + std::to_string(so.type) + " n=" + std::to_string(so.n) + "] keybase=" + std::to_string(base));
+  if (kind == 7) so = ta;
+  Cfg c; c.cpc = cpc; c.lg_k = so.lg_k; c.type = so.type; c.nmax = 0; c.parts = 0; c.overlap = 0; c.base = base; c.step = 0;
+  const uint64_t more = 1 + r.below(3ULL << so.lg_k);
+  double next = 1;
+  if (!cpc) {
+    hll_sketch a(ta.lg_k, TYPES[ta.type]), b(so.lg_k, TYPES[so.type]);
+    for (uint64_t i = 0; i < ta.n; ++i) a.update(bij(base + i));
+    if (kind != 7) for (uint64_t i = 0; i < so.n; ++i) b.update(bij(base + (1ULL << 40) + i));
+    const hll_sketch& src = kind == 7 ? a : b;
+    const Chain before = read_chain_c(src);
+    const hll_mode src_mode = src.get_current_mode();
+    if (kind < 4) a = b; else if (kind < 7) { hll_sketch tmp(b); a = std::move(tmp); } else { hll_sketch& self = a; a = self; }
+    const Chain after = read_chain_c(a);
+    auto ctx = [&] { return "true count=" + std::to_string(so.n) + " target: " + after.to_string() + " composite=" + str(after.comp) + " source: " + before.to_string() + " composite=" + str(before.comp); };
+    VF_CHECK(after.unstable.empty() && same_chain(after, before) && (after.comp == before.comp), "hll|assignment|target-estimate-or-bounds-differ-from-source", ctx());
+    VF_CHECK(a.get_current_mode() == src_mode && a.get_lg_config_k() == so.lg_k && a.get_target_type() == TYPES[so.type], "hll|assignment|target-mode-lg_k-or-type-differ-from-source", ctx());
+    if (kind != 7) { const Chain bb = read_chain_c(b); VF_CHECK(same_chain(bb, before) && bb.comp == before.comp && b.get_current_mode() == src_mode, "hll|assignment|source-changed", ctx()); }
+    observe_hll(a, so.n, TNAME[so.type], c, "assigned sketch", so.lg_k);
+    for (uint64_t j = 0; j < more; ++j) {
+      a.update(bij(base + (2ULL << 40) + j));
+      if (static_cast<double>(j + 1) >= next || j + 1 == more) { next = std::max(next * 1.3, next + 1); observe_hll(a, so.n + j + 1, TNAME[so.type], c, "assigned sketch after further updates", so.lg_k); count("sk_assign_continued_update_checkpoints"); }
+    }
+    if (kind != 7) { const Chain bb = read_chain_c(b); VF_CHECK(same_chain(bb, before) && bb.comp == before.comp, "hll|assignment|source-changed-by-updates-of-the-target", ctx()); }
+    count(std::string("sk_assign_hll_") + (src_mode == HLL ? "from_hll_mode" : "from_coupon_mode"));
+  } else {
+    cpc_sketch a(ta.lg_k), b(so.lg_k);
+    for (uint64_t i = 0; i < ta.n; ++i) a.update(bij(base + i));
+    if (kind != 7) for (uint64_t i = 0; i < so.n; ++i) b.update(bij(base + (1ULL << 40) + i));
+    const cpc_sketch& src = kind == 7 ? a : b;
+    const Chain before = read_chain(src);
+    const double hip0 = src.get_hip_estimate(), icon0 = src.get_icon_estimate(); const uint32_t coupons0 = src.get_num_coupons();
+    if (kind < 4) a = b; else if (kind < 7) { cpc_sketch tmp(b); a = std::move(tmp); } else { cpc_sketch& self = a; a = self; }
+    const Chain after = read_chain(a);
+    auto ctx = [&] { return "true count=" + std::to_string(so.n) + " target: " + after.to_string() + " source: " + before.to_string(); };
+    VF_CHECK(after.unstable.empty() && same_chain(after, before) && a.get_hip_estimate() == hip0 && a.get_icon_estimate() == icon0, "cpc|assignment|target-estimate-or-bounds-differ-from-source", ctx());
+    VF_CHECK(a.get_lg_k() == so.lg_k && a.get_num_coupons() == coupons0, "cpc|assignment|target-lg_k-or-coupon-count-differ-from-source", ctx());
+    if (kind != 7) { const Chain bb = read_chain(b); VF_CHECK(same_chain(bb, before) && b.get_num_coupons() == coupons0, "cpc|assignment|source-changed", ctx()); }
+    observe_cpc(a, so.n, "cpc", c, "assigned sketch", so.lg_k);
+    for (uint64_t j = 0; j < more; ++j) {
+      a.update(bij(base + (2ULL << 40) + j));
+      if (static_cast<double>(j + 1) >= next || j + 1 == more) { next = std::max(next * 1.3, next + 1); observe_cpc(a, so.n + j + 1, "cpc", c, "assigned sketch after further updates", so.lg_k); count("sk_assign_continued_update_checkpoints"); }
+    }
+    if (kind != 7) { const Chain bb = read_chain(b); VF_CHECK(same_chain(bb, before) && b.get_num_coupons() == coupons0, "cpc|assignment|source-changed-by-updates-of-the-target", ctx()); }
+    count("sk_assign_cpc");
+  }
+  count(kind < 4 ? "sk_assign_copy" : (kind < 7 ? "sk_assign_move" : "sk_assign_self"));
+}
+
 // ---------------------------------------------------------------- CPC union programs with mixed inputs
 static uint64_t covered(std::vector<std::pair<uint64_t, uint64_t>> iv) {   // size of the union of half-open key-index intervals
   std::sort(iv.begin(), iv.end());
@@ -337,6 +409,7 @@ void run_case(uint64_t idx, Rng& r) {
   (void)idx;
   seed_order(r);
   const bool T = G().thorough();
+  if (r.chance(0.1)) { run_assign_program(r, T); if (want_sample()) sample("{\"config\":" + jstr(G().cur_desc) + "}"); return; }
   if (r.chance(0.15)) { run_cpc_program(r, T); if (want_sample()) sample("{\"config\":" + jstr(G().cur_desc) + "}"); return; }
   if (r.chance(0.2)) { run_hll_program(r, T); if (want_sample()) sample("{\"config\":" + jstr(G().cur_desc) + "}"); return; }
   Cfg c;
